@@ -82,6 +82,7 @@ impl World {
 			kind: kind.to_string(),
 			header_bad,
 			twin_of: None,
+			ghosts: vec![],
 		});
 		self.bad.len() - 1
 	}
@@ -782,6 +783,58 @@ impl World {
 		b.header.output_root = (pmmr_root, fake).hash_with_index(b.header.output_mmr_size);
 		self.mine(&mut b, diff);
 		Some(self.push_bad(parent, b, "bitmap-bit-flipped", false))
+	}
+
+	/// For a rejected block whose header is valid: 3-5 valid headers on top of that header (mined,
+	/// linked, with the scheduled versions and difficulties, prev_root taken from the builder's header
+	/// MMR), so that the header-only fork has more work than the honest chain around it.
+	pub fn gen_ghost_headers(&mut self, bad: usize) -> bool {
+		if self.cfg.free_difficulty || self.bad[bad].header_bad || self.bad[bad].twin_of.is_some() {
+			return false;
+		}
+		let base = self.bad[bad].block.header.clone();
+		if self.builder.chain().process_block_header(&base, self.opts).is_err() {
+			return false;
+		}
+		let n = self.rng.range(3, 5);
+		let mut prev = base;
+		let mut out = vec![];
+		for _ in 0..n {
+			let info = self.next_difficulty(&prev);
+			let mut h = grin_core::core::BlockHeader::default();
+			h.height = prev.height + 1;
+			h.version = consensus::header_version(h.height);
+			h.prev_hash = prev.hash();
+			h.timestamp = crate::world::header_time_plus(&prev, self.draw_dt());
+			h.output_mmr_size = grin_core::core::pmmr::insertion_to_pmmr_index(prev.output_mmr_count() + 1);
+			h.kernel_mmr_size = grin_core::core::pmmr::insertion_to_pmmr_index(prev.kernel_mmr_count() + 1);
+			h.output_root = Hash::from_vec(&self.rng.bytes(32));
+			h.range_proof_root = Hash::from_vec(&self.rng.bytes(32));
+			h.kernel_root = Hash::from_vec(&self.rng.bytes(32));
+			h.total_kernel_offset = prev.total_kernel_offset.clone();
+			h.pow.secondary_scaling = info.secondary_scaling;
+			h.pow.total_difficulty = prev.total_difficulty() + info.difficulty;
+			if self.builder.chain().set_prev_root_only(&mut h).is_err() {
+				break;
+			}
+			h.pow.proof.edge_bits = global::min_edge_bits();
+			h.pow.nonce = 0;
+			if grin_core::pow::pow_size(&mut h, info.difficulty, global::proofsize(), global::min_edge_bits()).is_err() {
+				break;
+			}
+			if self.builder.chain().process_block_header(&h, self.opts).is_err() {
+				break;
+			}
+			prev = h.clone();
+			out.push(h);
+		}
+		if out.len() >= 3 {
+			self.bad[bad].ghosts = out;
+			*self.stats.entry("ghost_header_forks".into()).or_insert(0) += 1;
+			true
+		} else {
+			false
+		}
 	}
 
 	/// Generate up to `per_kind` bad blocks of each listed kind (kinds that find no suitable
